@@ -52,7 +52,10 @@ CERTAIN = {"Ham": (1, 1), "SS": (-1, 1), "OO": (-1, 1), "CC": (-1, 1), "rotAA": 
 GAUGE_DEP = ['D', 'AA', 'BB', 'CCab']
 
 
-@unit("C08", "parity tables get_transform_TR / get_transform_Inv and Data_K.covariant wiring", scope="shape:all table names, derivative orders 0..4", expect_min=5)
+def _tables_unit(prop="C08"):
+    return unit(prop, "parity tables get_transform_TR / get_transform_Inv and Data_K.covariant wiring", scope="shape:all table names, derivative orders 0..4", expect_min=5)(_tables)
+
+
 def _tables(U):
     ident, odd = types.SimpleNamespace(factor=1, name="ident"), types.SimpleNamespace(factor=-1, name="odd")
     g = dict(transform_ident=ident, transform_odd=odd)
@@ -102,6 +105,9 @@ def _tables(U):
                  and m.kw["transformTR"].factor == tr("SS", 1).factor and m.kw["transformInv"].factor == inv("SS", 1).factor)
         U.ensure("covariant('Ham', gender=1) is the velocity (V_covariant); results are memoised", cov(me, "Ham", gender=1) == "VCOV" and cov(me, "SS", gender=1) is m)
     U.run(body, check_feasible=False)
+
+
+_tables_unit()
 
 
 def _transform_unit(prop="C08"):
